@@ -9,3 +9,25 @@
 (declare-fun relHist (Iface Int) Slice)
 (declare-fun relHistErr (Iface Int) Iface)
 (declare-fun dsNotFound (Iface Iface) Bool)
+; "the history version that has the greatest version number below its own":
+; H = contents of the history array (element pointers), o/n = offset/length,
+; V = the Version field heap of the element kind, xv = the element's version,
+; p = the candidate previous element. Opaque predicates with a definitional
+; axiom, so that frame reasoning goes by congruence and the definition is
+; unfolded only where an isPrevIn term occurs.
+(declare-fun isPrevIn ((Array Int Int) Int Int (Array Int Int) Int Int) Bool)
+(assert (forall ((H (Array Int Int)) (o Int) (n Int) (V (Array Int Int)) (xv Int) (p Int))
+  (! (= (isPrevIn H o n V xv p)
+        (and (not (= p 0))
+             (exists ((j Int)) (and (<= 0 j) (< j n) (= (select H (sidx o j)) p)))
+             (< (select V p) xv)
+             (forall ((j Int)) (! (=> (and (<= 0 j) (< j n) (< (select V (select H (sidx o j))) xv))
+                                     (<= (select V (select H (sidx o j))) (select V p)))
+                                 :pattern ((select H (sidx o j)))))))
+     :pattern ((isPrevIn H o n V xv p)))))
+(declare-fun noPrevIn ((Array Int Int) Int Int (Array Int Int) Int) Bool)
+(assert (forall ((H (Array Int Int)) (o Int) (n Int) (V (Array Int Int)) (xv Int))
+  (! (= (noPrevIn H o n V xv)
+        (forall ((j Int)) (! (=> (and (<= 0 j) (< j n)) (not (< (select V (select H (sidx o j))) xv)))
+                            :pattern ((select H (sidx o j))))))
+     :pattern ((noPrevIn H o n V xv)))))
